@@ -439,51 +439,75 @@ func TestVerifC15Loader(t *testing.T) {
 		{"GOFLAGS=-toolexec=/nonexistent/x"},
 		{"GO111MODULE=off", "GONOSUMDB=none", "GOPROXY=direct"},
 	}
-	for i, h := range hostiles {
-		if !vh.Mine(i) {
-			continue
+	// the module the file lives in decides how the go command answers: no module, an ordinary one,
+	// one that demands a newer Go or toolchain than the local one (the go command refuses under
+	// GOTOOLCHAIN=local: an error path of the loader), one with a go.mod it cannot parse
+	targets := []struct{ name, gomod string }{
+		{"no-module", ""},
+		{"go1.21", "module example.com/t\n\ngo 1.21\n"},
+		{"go1.99", "module example.com/t\n\ngo 1.99\n"},
+		{"toolchain-go1.99.0", "module example.com/t\n\ngo 1.21\n\ntoolchain go1.99.0\n"},
+		{"broken-go.mod", "module example.com/t\n\nrequire (\n"},
+	}
+	caseNo := 0
+	for _, tg := range targets {
+		file := file
+		if tg.gomod != "" {
+			d := filepath.Join(scratch, "mod-"+tg.name)
+			os.MkdirAll(d, 0o755)
+			os.WriteFile(filepath.Join(d, "go.mod"), []byte(tg.gomod), 0o644)
+			file = filepath.Join(d, "main.go")
+			os.WriteFile(file, []byte(src), 0o644)
 		}
-		restore()
-		os.Setenv("PATH", bindir+string(os.PathListSeparator)+os.Getenv("PATH"))
-		for _, e := range h {
-			k, _ := c15Key(e)
-			os.Setenv(k, e[len(k)+1:])
-		}
-		old, _ := filepath.Glob(filepath.Join(logdir, "env.*"))
-		for _, f := range old {
-			os.Remove(f)
-		}
-		amb := os.Environ()
-		res, ferr := FingerprintSource(file, src, ir.DefaultLiteralPolicy)
-		logs, _ := filepath.Glob(filepath.Join(logdir, "env.*"))
-		r.Eval()
-		if len(logs) == 0 {
-			r.Fail("fake go was never invoked (hostile=%q, err=%v, results=%d)", h, ferr, len(res))
-			return
-		}
-		r.Nontrivial(strings.Join(h, "|"))
-		r.Count("go_invocations_recorded", int64(len(logs)))
-		for _, lf := range logs {
-			b, _ := os.ReadFile(lf)
-			var env []string
-			for _, e := range strings.Split(string(b), "\x00") {
-				if e != "" {
-					env = append(env, e)
+		for _, h0 := range hostiles {
+			caseNo++
+			i := caseNo - 1
+			h := append([]string{"target=" + tg.name}, h0...)
+			if !vh.Mine(i) {
+				continue
+			}
+			restore()
+			os.Setenv("PATH", bindir+string(os.PathListSeparator)+os.Getenv("PATH"))
+			for _, e := range h0 {
+				k, _ := c15Key(e)
+				os.Setenv(k, e[len(k)+1:])
+			}
+			old, _ := filepath.Glob(filepath.Join(logdir, "env.*"))
+			for _, f := range old {
+				os.Remove(f)
+			}
+			amb := os.Environ()
+			res, ferr := FingerprintSource(file, src, ir.DefaultLiteralPolicy)
+			logs, _ := filepath.Glob(filepath.Join(logdir, "env.*"))
+			r.Eval()
+			if len(logs) == 0 {
+				r.Fail("fake go was never invoked (hostile=%q, err=%v, results=%d)", h, ferr, len(res))
+				return
+			}
+			r.Nontrivial(strings.Join(h, "|"))
+			r.Count("go_invocations_recorded", int64(len(logs)))
+			for _, lf := range logs {
+				b, _ := os.ReadFile(lf)
+				var env []string
+				for _, e := range strings.Split(string(b), "\x00") {
+					if e != "" {
+						env = append(env, e)
+					}
+				}
+				for key, want := range c15Want {
+					got, ok := c15Resolve(env, key, true, true)
+					good := ok && got == want
+					if key == "GOFLAGS" {
+						good = ok && c15FlagsOK(got)
+					}
+					if !good {
+						r.Violate("loader/"+strings.Join(h, "|")+"/"+key, fmt.Sprintf("go command run by the loader saw %s=%q (present=%v), want %q; ambient=%q", key, got, ok, want, amb), map[string]interface{}{"ambient": h})
+					}
 				}
 			}
-			for key, want := range c15Want {
-				got, ok := c15Resolve(env, key, true, true)
-				good := ok && got == want
-				if key == "GOFLAGS" {
-					good = ok && c15FlagsOK(got)
-				}
-				if !good {
-					r.Violate("loader/"+strings.Join(h, "|")+"/"+key, fmt.Sprintf("go command run by the loader saw %s=%q (present=%v), want %q; ambient=%q", key, got, ok, want, amb), map[string]interface{}{"ambient": h})
-				}
+			if len(h0) == 0 {
+				r.Sample(map[string]interface{}{"ambient_extra": h, "go_invocations": len(logs), "fingerprint_err": fmt.Sprint(ferr), "functions": len(res)})
 			}
-		}
-		if i < 2 {
-			r.Sample(map[string]interface{}{"ambient_extra": h, "go_invocations": len(logs), "fingerprint_err": fmt.Sprint(ferr), "functions": len(res)})
 		}
 	}
 }
